@@ -41,3 +41,10 @@ PROPS['C17'] = {
     ],
     'require': {'bound.languages': 10, 'witness.encodes': 1000},
 }
+
+PROPS['C03'] = {
+    'level': 'exploration',
+    'exhaustive_possible': True,
+    'runs': [{'name': 'asan', 'flavour': 'asan', 'driver': 'drv_c03'}],
+    'require': {'encode.calls': 400000, 'bits.seeds': 13531, 'purity.histories_agree': 1000, 'reserved_bit.decodes': 100, 'oracle.vectors_reproduced': 3000},
+}
